@@ -41,7 +41,8 @@ def check_case(case, stats=None, K=oracle.K_QUICK, known=None):
     if "error" in res:
         if stats is not None:
             stats.evaluations += 1
-            stats.discarded["reject"] += 1
+            desc = res["error"].get("description", "")
+            stats.discarded["reject:" + ("registers" if "out of registers" in desc else oracle.norm_error(desc))] += 1
         return
     v = res.get("_verif")
     if not v:
@@ -119,7 +120,7 @@ def cases(draw):
     # d5_args: the region/halting oracle does not depend on source semantics, so the aliasing shape of
     # open finding F-D5 (a writable global passed by bare name) may be generated; for such programs the
     # comparison with the source interpreter is skipped
-    cfg = programs.Cfg(terminating_main=True, terminating_with_funcs=True, main_stmts=3, max_funcs=3, d5_args=draw(programs.st.integers(0, 2)) > 0, nested_defs=True)
+    cfg = programs.Cfg(terminating_main=True, terminating_with_funcs=True, main_stmts=3, max_funcs=3, min_funcs=1, call_twice_pct=70, call_bias=15, max_params=2, func_stmts=2, d5_args=draw(programs.st.integers(0, 2)) > 0, nested_defs=True)
     c = draw(programs.program_cases(cfg))
     c["opts"] = VECTORS[draw(programs.st.integers(0, len(VECTORS) - 1))]
     return c
